@@ -4,7 +4,9 @@ import Restic.Gen.Consts
 /-!
 Driver for C12 (stream `sched`). Records per case:
   nproc <n>
-  proc <i> locker|remover <excl 0/1> <refreshes> unlock|crash
+  proc <i> locker|remover|remlocker|expired <excl 0/1> <refreshes> unlock|crash [<age_ms> <name8>]
+      remlocker = `RemoveStaleLocks` (unlock) followed by a lock acquisition; expired = a holder whose lock
+      file is <age_ms> old (written before scheduling starts) and who runs the forced refresh refreshStaleLock
   ghost <name8> old|deadpid|otherhost <excl 0/1> <age_ms>          lock file left by a process that is gone
   ev <t_ms> <proc> list|load|save|remove|stat <name8|-> <ok 0/1> <listed names|->   one backend operation (in execution order)
   mk <t_ms> <proc> start|acq|fail-locked|fail-err|refreshed|refresh-err|rel|unlocked|crash|remover-start|remover-done …
@@ -29,6 +31,7 @@ structure DSt where
   sys : Sys
   names : Array (Option String × Option String) := #[]   -- per model process: names of f1, f2
   kinds : Array String := #[]
+  kinds0 : Array String := #[]
   excls : Array Bool := #[]
   acq : Array Bool := #[]
   holders : List (Nat × Bool) := []        -- implementation: who believes to hold (from markers)
@@ -95,7 +98,9 @@ def implTrack (st : DSt) (r : Array String) : Except Verdict DSt :=
     let excl := st.excls.getD i false
     match r.getD 3 "" with
     | "acq" => .ok ({ st with holders := (i, excl) :: st.holders, acq := st.acq.set! i true, nacq := st.nacq + 1 }.label (if excl then "acq-excl" else "acq-shared"))
-    | "rel" | "crash" => .ok { st with holders := st.holders.filter (·.1 != i) }
+    | "rel" | "crash" | "lost" => .ok { st with holders := st.holders.filter (·.1 != i) }
+    | "sr-ok" => .ok ({ st with holders := (i, excl) :: st.holders, acq := st.acq.set! i true, nacq := st.nacq + 1 }.label "forced-refresh-ok")
+    | "remover-done" => if st.kinds0.getD i "" == "remlocker" then .ok { st with kinds := st.kinds.set! i "locker" } else .ok st
     | _ => .ok st
   | _ => .ok st
 
@@ -119,6 +124,8 @@ def handleEv (st : DSt) (r : Array String) : Except Verdict DSt := do
     | .idle => if ok && clear then (match act st i .check1 with | some s => .ok s | none => .error (.differ "check1" "not enabled")) else .ok st
     | .checked1 => if ok && clear then .ok st else (match act st i .check1fail with | some s => .ok s | none => .error (.differ "check1fail" "not enabled"))
     | .created => if ok && clear then (match act st i .check2ok with | some s => .ok s | none => .error (.differ "check2ok" "not enabled")) else .ok st
+    -- first existence check of refreshStaleLock (the second one decides at the following remove)
+    | .stale0 => if ok && (st.sys.procs.getD i default).f1.isSome then (match act st i .srCheck1 with | some s => .ok s | none => .error (.differ "srCheck1" "not enabled")) else .ok st
     | _ => .ok st
   | "load" | "stat" => .ok st
   | "save" =>
@@ -132,11 +139,28 @@ def handleEv (st : DSt) (r : Array String) : Except Verdict DSt := do
       match act st i .refreshCreate with
       | some s => .ok ((setName s i fun nm => (nm.1, some name)).label "refresh")
       | none => .error (.differ "refreshCreate" "not enabled")
+    | .stale1 =>
+      match act st i .srCreate with
+      | some s => .ok ((setName s i fun nm => (nm.1, some name)).label "forced-refresh-wrote-replacement")
+      | none => .error (.differ "srCreate" "not enabled")
     | pc => .error (.differ "save" s!"process {i} writes a lock file in model state {repr pc} (no passing first check before create?) t={t}")
   | "remove" =>
     let st := if ok then st else st.label "remove-of-missing-file"
     match ownerOf st name with
-    | none => .error (.differ "remove" s!"unknown lock file {name}")
+    | none =>
+      -- a file that somebody else (the remover) already deleted: the removal fails; for a process that
+      -- is giving up this was its unlock
+      if ok then .error (.differ "remove" s!"unknown lock file {name}") else
+      if pcOf st i == .stopping then
+        (match act st i .cleanup with
+         | some s => .ok ((setName s i fun _ => (none, none)).label "unlock-of-vanished-lock")
+         | none => .error (.differ "cleanup" "not enabled"))
+      else if pcOf st i == .stale2 then
+        -- adoption of the replacement of a forced refresh: the old file is already gone
+        (match act st i .srFailKeep with
+         | some s => .ok ((setName s i fun nm => (nm.2, none)).label "adopt-remove-failed")
+         | none => .error (.differ "srFailKeep" "not enabled"))
+      else .ok (st.label "remove-of-vanished-file")
     | some (j, second) =>
       if kind == "remover" then
         if !ok then .ok st else
@@ -149,7 +173,13 @@ def handleEv (st : DSt) (r : Array String) : Except Verdict DSt := do
           | none =>
             .error (.differ "remover" s!"model: lock {name} of process {j} is neither stale nor its owner dead")
       else if j != i then .error (.differ "remove" s!"process {i} removes lock {name} of process {j}")
-      else if second then .error (.differ "remove" s!"process {i} removes its replacement lock {name}")
+      else if second then
+        -- cleanup of the replacement by a failing forced refresh
+        if pcOf st i == .stale2 then
+          match act st i .srFail with
+          | some s => .ok ((setName s i fun nm => (nm.1, none)).label "forced-refresh-cleanup")
+          | none => .error (.differ "srFail" "not enabled")
+        else .error (.differ "remove" s!"process {i} removes its replacement lock {name}")
       else
         match pcOf st i with
         | .refreshing =>
@@ -165,6 +195,17 @@ def handleEv (st : DSt) (r : Array String) : Except Verdict DSt := do
           match (act st i .giveUp).bind (fun s => act s i .cleanup) with
           | some s => .ok ((setName s i fun _ => (none, none)).label "second-check-failed-after-retry")
           | none => .error (.differ "giveUp" "not enabled")
+        | .stale2 =>
+          -- adoption of the replacement: the old file must still be there
+          if !ok then
+            -- lockID already points to the replacement, the old file could not be removed: the forced
+            -- refresh fails, the replacement is removed by the following unlock
+            (match act st i .srFailKeep with
+             | some s => .ok ((setName s i fun nm => (nm.2, none)).label "adopt-remove-failed")
+             | none => .error (.differ "srFailKeep" "not enabled")) else
+          match act st i .srAdopt with
+          | some s => .ok (setName s i fun nm => (nm.2, none))
+          | none => .error (.differ "srAdopt" s!"process {i} adopts its replacement although its old lock {name} is gone in the model")
         | .stopping =>
           match act st i .cleanup with
           | some s => .ok (setName s i fun _ => (none, none))
@@ -196,6 +237,15 @@ def handleMk (st : DSt) (r : Array String) : Except Verdict DSt := do
     | .idle | .checked1 => (match act st i .abort with | some s => .ok s | none => .error (.differ "abort" "not enabled"))
     | .released => .ok st
     | pc => .error (.differ what s!"process {i} gave up in model state {repr pc}")
+  | "sr-ok" =>
+    if pcOf st i == .holding then .ok st else
+      .error (.differ "sr-ok" s!"forced refresh of process {i} reported success, the model is in state {repr (pcOf st i)} (old lock file gone at the second existence check?) t={t}")
+  | "sr-fail" =>
+    let st := st.label "forced-refresh-failed"
+    match pcOf st i with
+    | .stale0 | .stale1 | .stale2 => (match act st i .srFail with | some s => .ok (setName s i fun nm => (nm.1, none)) | none => .error (.differ "srFail" "not enabled"))
+    | .stopping => .ok st
+    | pc => .error (.differ "sr-fail" s!"model state {repr pc}")
   | "refreshed" => if pcOf st i == .holding then .ok st else .error (.differ "refreshed" s!"model state {repr (pcOf st i)}")
   | "refresh-err" => .ok (st.label "refresh-err")
   | "unlocked" => if pcOf st i == .released then .ok st else .error (.differ "unlocked" s!"model state {repr (pcOf st i)}")
@@ -210,20 +260,28 @@ def handleC12 (c : Case) : Verdict :=
   let procs := c.findAll "proc"
   let ghosts := c.findAll "ghost"
   let mprocs : List Proc :=
-    (procs.toList.map fun r => ({ excl := r.getD 3 "0" == "1" } : Proc)) ++
+    (procs.toList.map fun r =>
+      if r.getD 2 "" == "expired" then
+        let age := (r.getD 6 "0").toNat?.getD 0
+        ({ pc := .stale0, excl := r.getD 3 "0" == "1", t := timeOffset - age, f1 := some (timeOffset - age) } : Proc)
+      else ({ excl := r.getD 3 "0" == "1" } : Proc)) ++
     (ghosts.toList.map fun r =>
       let age := (r.getD 4 "0").toNat?.getD 0
       ({ pc := .dead, excl := r.getD 3 "0" == "1", t := timeOffset - age, f1 := some (timeOffset - age) } : Proc))
   let st0 : DSt := {
     sys := { now := timeOffset, procs := mprocs },
-    names := (procs.map fun _ => (none, none)) ++ (ghosts.map fun r => (some (r.getD 1 "?"), none)),
-    kinds := procs.map (·.getD 2 "locker"),
+    names := (procs.map fun r => if r.getD 2 "" == "expired" then (some (r.getD 7 "?"), none) else (none, none)) ++
+      (ghosts.map fun r => (some (r.getD 1 "?"), none)),
+    kinds := procs.map (fun r => if r.getD 2 "" == "remlocker" then "remover" else if r.getD 2 "" == "expired" then "locker" else r.getD 2 "locker"),
+    kinds0 := procs.map (·.getD 2 "locker"),
     excls := procs.map (·.getD 3 "0" == "1"),
     acq := procs.map fun _ => false,
-    present := ghosts.toList.map (·.getD 1 "?"),
-    own := ghosts.toList.zipIdx.map (fun (r, k) => (r.getD 1 "?", procs.size + k)),
+    present := ghosts.toList.map (·.getD 1 "?") ++ (procs.toList.filter (·.getD 2 "" == "expired")).map (·.getD 7 "?"),
+    own := ghosts.toList.zipIdx.map (fun (r, k) => (r.getD 1 "?", procs.size + k)) ++
+      (procs.toList.zipIdx.filter (·.1.getD 2 "" == "expired")).map (fun (r, k) => (r.getD 7 "?", k)),
     nlockers := (procs.filter (·.getD 2 "" == "locker")).size,
-    labels := (ghosts.toList.map fun r => s!"ghost-{r.getD 2 "?"}").eraseDups }
+    labels := ((ghosts.toList.map fun r => s!"ghost-{r.getD 2 "?"}") ++ (procs.toList.filterMap fun r =>
+      if r.getD 2 "" == "expired" || r.getD 2 "" == "remlocker" then some s!"proc-{r.getD 2 "?"}" else none)).eraseDups }
   -- model replay of one record; a step the model does not allow stops the replay (remembered), the
   -- evaluation of the property on the implementation's observations goes on
   let replay (st : DSt) (r : Array String) : DSt :=
